@@ -84,6 +84,12 @@ def shards(tier, seed):
             for start in range(0, nvec, bs):
                 out.append({'kind': 'block', 'method': m, 'alpha': alpha, 'x': [start, min(nvec, start + bs)],
                             'rep': 'rdms' if (start // bs) % 2 == 0 else 'array'})
+        # the integer-valued vectors held as integer arrays (counts, ranks, categorical model RDMs) on either side
+        if alpha in ('012^3', 'm1012^3'):
+            for m in VECTOR_METHODS:
+                for k, dt in enumerate([['int', 'float'], ['float', 'int'], ['int', 'int'], ['int32', 'float32']]):
+                    out.append({'kind': 'block', 'method': m, 'alpha': alpha, 'x': [0, nvec],
+                                'rep': 'rdms' if k % 2 == 0 else 'array', 'dtype': dt})
     # B: stack shapes x representation x laws on Tier-A subset and fills
     for m in VECTOR_METHODS + WHITE + BURES:
         for n_cond in ([3, 4, 5] if thorough else [3, 4]):
@@ -95,6 +101,9 @@ def shards(tier, seed):
             out.append({'kind': 'white', 'method': m, 'alpha': '012^3', 'sigma': sk, 'x': [0, 27]})
             nv = 64
             out.append({'kind': 'white', 'method': m, 'alpha': '01^6', 'sigma': sk, 'x': [0, nv]})
+            if sk in ('none', 'vector', 'full'):
+                for dt in (['int', 'float'], ['float', 'int'], ['int', 'int']):
+                    out.append({'kind': 'white', 'method': m, 'alpha': '012^3', 'sigma': sk, 'x': [0, 27], 'dtype': dt})
             if thorough:
                 for start in range(0, 729, 81):
                     out.append({'kind': 'white', 'method': m, 'alpha': '012^6', 'sigma': sk,
@@ -123,11 +132,13 @@ def run_shard(shard, ctx):
     run_case(shard, ctx)
 
 
-def _wrap(vecs, rep):
+def _wrap(vecs, rep, dtype=float):
+    """the vectors as the caller may hold them: float or (for the integer-valued alphabets) integer typed"""
+    dtype = {'float': float, 'int': np.int64, 'int32': np.int32, 'float32': np.float32}.get(dtype, dtype)
     if rep == 'array':
-        return np.array(vecs, dtype=float)
+        return np.array(vecs, dtype=dtype)
     from rsatoolbox.rdm import RDMs
-    return RDMs(np.array(vecs, dtype=float))
+    return RDMs(np.array(vecs, dtype=dtype))
 
 
 def _judge_matrix(ctx, case, method, got, X, Y, sigma_ref, tol, tag, keep=None):
@@ -173,17 +184,20 @@ def run_case(case, ctx):
         V = _alphabet_vectors(case['alpha'])
         X = V[case['x'][0]:case['x'][1]]
         with ctx.guard('compare|method=%s,plain' % case['method'], case):
-            got = compare(_wrap(X, case['rep']), _wrap(V, case['rep']), method=case['method'])
-            _judge_matrix(ctx, case, case['method'], got, X, V, None, TOL_PLAIN, 'plain')
+            dt = case.get('dtype', ['float', 'float'])
+            got = compare(_wrap(X, case['rep'], dt[0]), _wrap(V, case['rep'], dt[1]), method=case['method'])
+            _judge_matrix(ctx, case, case['method'], got, X, V, None,
+                          1e-5 if 'float32' in dt else TOL_PLAIN, 'plain' + (',dtype=%s/%s' % tuple(dt) if 'dtype' in case else ''))
     elif kind == 'white':
         V = _alphabet_vectors(case['alpha'])
         X = V[case['x'][0]:case['x'][1]]
         n = ref.n_from_len(V.shape[1])
         sk, sk_ref = _sigma(case['sigma'], n, seed)
         with ctx.guard('compare|method=%s,sigma_k=%s' % (case['method'], case['sigma']), case):
-            got = compare(_wrap(X, 'rdms'), _wrap(V, 'rdms'), method=case['method'], sigma_k=sk)
+            dt = case.get('dtype', ['float', 'float'])
+            got = compare(_wrap(X, 'rdms', dt[0]), _wrap(V, 'rdms', dt[1]), method=case['method'], sigma_k=sk)
             _judge_matrix(ctx, case, case['method'], got, X, V, sk_ref, TOL_CG,
-                          'sigma_k=%s' % case['sigma'])
+                          'sigma_k=%s' % case['sigma'] + (',dtype=%s/%s' % tuple(dt) if 'dtype' in case else ''))
     elif kind == 'laws':
         _laws(case, ctx)
     elif kind == 'sequence':
